@@ -7,7 +7,7 @@
    [em] ranges over the three encoding modes, [more] over more_available, codes over all lists. *)
 From Coq Require Import ZArith List Bool.
 Import ListNotations.
-From Urwid Require Import PyBase escape_table_gen KeyInput KeyInputProofs KeyInputSgr KeyInputTrie KeyInputWide.
+From Urwid Require Import PyBase escape_table_gen KeyInput KeyInputProofs KeyInputSgr KeyInputTrie KeyInputWide KeyInputStream.
 Open Scope Z_scope.
 
 (* ---------- clause 1: terminates, consumes strictly left to right ---------- *)
@@ -299,6 +299,44 @@ Theorem narrow_high_byte :
 Proof. exact narrow_high_byte_proof. Qed.
 Print Assumptions narrow_high_byte.
 
+(* ---------- whole streams of recognised items ---------- *)
+(* [item]: a table key, an X10 report, an SGR report with decimal parameters, a cursor position report
+   the table does not shadow, a printable ASCII character, a well-formed UTF-8 character (utf8 mode),
+   a double-byte character (wide mode).  [item_ok] collects the well-formedness conditions of the
+   per-item theorems above; [table_blind k] says no table entry is a prefix of k or has k as a proper
+   prefix - by trie_lookup_is_table_lookup the trie then answers None on k ++ anything. *)
+Theorem table_blind_falls_through :
+  forall k rest more, table_blind k = true -> k <> [] -> get_recurse input_trie (k ++ rest) more = OOk None.
+Proof. exact trie_blind. Qed.
+Print Assumptions table_blind_falls_through.
+
+(* each recognised item is reported exactly once, as its documented event, whatever follows *)
+Theorem recognised_item_decodes :
+  forall em i, item_ok em i ->
+    item_bytes i <> [] /\
+    forall rest more, process_keyqueue em (item_bytes i ++ rest) more = OOk ([item_event i], rest).
+Proof. exact item_decodes. Qed.
+Print Assumptions recognised_item_decodes.
+
+(* a stream of recognised items decodes to exactly their events, in order, nothing pending *)
+Theorem recognised_stream_decodes :
+  forall em more items, Forall (item_ok em) items ->
+    parse_loop (length (flat_map item_bytes items)) em (flat_map item_bytes items) more []
+      = PDone (map item_event items).
+Proof. exact decode_items. Qed.
+Print Assumptions recognised_stream_decodes.
+
+(* ... and so it does when the bytes arrive cut into successive reads at ARBITRARY points (inside
+   escape sequences, inside multi-byte characters), the rest arriving before the timeout: the
+   callbacks receive exactly one event per item, in order; raw codes = the stream; nothing pending *)
+Theorem recognised_stream_any_fragmentation :
+  forall em items pieces,
+    Forall (item_ok em) items -> concat pieces = flat_map item_bytes items ->
+    exists calls, run em [] (map Feed pieces) = (calls, [], None) /\
+      keys_of calls = map item_event items /\ raw_of calls = flat_map item_bytes items.
+Proof. exact recognised_stream_fragmented. Qed.
+Print Assumptions recognised_stream_any_fragmentation.
+
 (* ---------- non-vacuity: the model computes, the hypotheses are satisfiable ---------- *)
 From Coq Require Import String.
 Example decodes_up_then_x :
@@ -360,6 +398,16 @@ Example wide_examples :
   forallb wchar_ok [WDouble 176 161; WAscii 97; WDouble 129 64] = true /\
   within_double_byte [176; 161] 0 1 = Ok 2.
 Proof. vm_compute. auto 10. Qed.
+
+Example recognised_items_exist :
+  Forall (item_ok Utf8) example_items_utf8 /\ Forall (item_ok Wide) example_items_wide.
+Proof. exact example_items_ok. Qed.
+
+Example recognised_items_compute :
+  map item_event example_items_utf8
+  = [Key (s2z "ctrl up"); Mouse (s2z "mouse press") 1 10 20; Mouse (s2z "mouse press") 1 11 2; CursorPos 79 23;
+     Key [97]; Key [19990]].
+Proof. vm_compute. reflexivity. Qed.
 
 Example timeout_needed_for_lone_esc :
   process_keyqueue Utf8 [27] true = OMore /\ process_keyqueue Utf8 [27] false = OOk ([Key (s2z "esc"%string)], []).
